@@ -357,6 +357,11 @@ package vm
 //@ like template.evalStmt
 //@ requires stmt != nil
 //@ ensures [C08] nosentinel: runInfo.err != ErrBreak && runInfo.err != ErrContinue && runInfo.err != ErrReturn
+// C16/C20: close(x) closes exactly the channel x denotes (also when x was read from an interface-typed element) and
+// nothing else; anything that is not a channel is an error. (That closing a closed channel is an error and not a crash
+// is the recover-region obligation of the Close call, C01.)
+//@ ensures [C16 C20] closes: ncalls() >= 1 && res(0) == nil && rvKind(unwrap(res2(0))) == reflect.Chan ==> ncalls() == 2 && calleeIs(1, "(reflect.Value).Close") && arg(1) == unwrap(res2(0))
+//@ ensures [C16] nonchan: ncalls() >= 1 && res(0) == nil && rvKind(unwrap(res2(0))) != reflect.Chan ==> ncalls() == 1 && runInfo.err != nil
 
 //@ func (*runInfoStruct).runChanStmt
 //@ props C04 C08 C02
